@@ -94,6 +94,9 @@ def dickPair (p0 : K) (a x : K) : Nat → K × K
 def dickson1 (n : Nat) (a x : K) : K := (dickPair (nat 2) a x n).1
 def dickson2 (n : Nat) (a x : K) : K := (dickPair (nat 1) a x n).1
 
+/-- `kronecker(i, j)` meeting scalars -/
+def kroneckerK (i j : Int) : K := if i = j then nat 1 else nat 0
+
 /-! ## Zernike: `R_n^m(r) = r^{|m|} P^{(0,|m|)}_{(n−|m|)/2}(2r²−1)`; norm² `= 2(n+1)/(1+δ_{m0})` -/
 def zernikeNormSq (n : Nat) (m : Int) : K :=
   nat 2 * (nat n + nat 1) / (nat 1 + (if m = 0 then nat 1 else nat 0))
